@@ -311,6 +311,14 @@ theorem zip_map_fst_snd {α β : Type} (b : List (α × β)) : (b.map (·.1)).zi
   | nil => rfl
   | cons x xs ih => simp [ih]
 
+/-- the side condition of `remove_samples_source_eq_model` / `finalise_source_eq_model` holds in every reachable state
+(`samples` is never `None` once `add_initial_samples` has run) -/
+theorem reachable_samples_some (s : OS) (hr : Reachable s) : s.samples = none → s.live = none := by
+  obtain ⟨smp, hinv⟩ := reachable_inv s hr
+  intro h
+  rw [hinv.hs] at h
+  cases h
+
 theorem add_initial_samples_source_eq_model (s : OS) (b : List (Smp × Nat)) :
     Gen.OrderedOps.add_initial_samples s.samples s.rows s.live s.nested s.thr s.strict s.replAll (b.map (·.1)) (b.map (·.2)) =
       .ok (fieldsOf (addInitial s b)) := by
